@@ -392,7 +392,7 @@ void orc_c07_api(const ApiRec &r, const Frame &f, const std::string &snap0, cons
     const std::string &n = r.name;
     oracle_eval("C07.context-model");
     int registered_now = 0;
-    for (auto &s : W->slots) if (s.ctx_gen == W->ctx_registrations && s.st != ST_NONE && s.st != ST_ZOMBIE && !leaving(s.idx)) registered_now++;
+    for (auto &s : W->slots) if (ctx_member(s)) registered_now++;   // (a module nobody asked to deregister is a member whatever became of it)
     if (n == "ctx_reg") {
         if (W->has_ctx) { if (r.rc != -EEXIST) VIOL("C07", "C07:second-context", "registering a second context on the thread returned %d instead of -EEXIST", r.rc); }
         else if (r.rc != 0) VIOL("C07", "C07:fresh-context-refused", "registering a context on a thread without one returned %d", r.rc);
